@@ -13,9 +13,10 @@
 #include "dump.h"
 
 
-#define NBODIES 5
+#define NBODIES 6
 static const char *BODYN[NBODIES] = { "P1 read/query/write/free", "P2 build/set/merge/free", "P3 layered read with options", "P4 malformed file",
-                                       "P5 layered read on the defaults (even instance: drop-ins only, no configuration name; odd: two directories)" };
+                                       "P5 layered read on the defaults (even instance: drop-ins only, no configuration name; odd: two directories)",
+                                       "P6 write that fails (target name is a directory), then a write that succeeds" };
 
 typedef struct { int body; int instance; char dir[300]; sbuf out; } tctx;
 /* per-instance parameters: shared static state inside the library only becomes visible when the threads pass different data */
@@ -74,6 +75,9 @@ static void body_prepare(tctx *t, int instance)
       sb_printf(&c, "where=DECOY\ndecoy=1\n"); b_mkfile(t->dir, "etc/app.d/30-c.cfg", c.s);
     }
     sb_free(&c);
+  } else if (t->body == 5) {
+    char cmd[800]; snprintf(cmd, sizeof cmd, "mkdir -p %s/blocked.out", t->dir);
+    if (system(cmd) != 0) mc_die("mkdir");
   } else if (t->body == 3) {
     sbuf c = {0};
     sb_printf(&c, "ok=%s\n[good]\nk=1\n[broken %s\nnever=1\n", tag, tag); b_mkfile(t->dir, "bad.conf", c.s); sb_free(&c);
@@ -156,6 +160,16 @@ static void body_run(tctx *t)
       LIB(rc = econf_readDirs(&kf, d0, d1, "app", "cfg", "=", "#")); sb_printf(&t->out, "readDirs rc=%d\n", (int)rc);
     }
     if (!rc) b_dump(t, kf);
+    break; }
+  case 5: {
+    LIB(rc = econf_newKeyFile(&kf, '=', '#')); sb_printf(&t->out, "new rc=%d\n", (int)rc);
+    if (rc) break;
+    char tag[64]; snprintf(tag, sizeof tag, "%s", strrchr(t->dir, '/') + 1);
+    LIB(econf_setStringValue(kf, "W", "who", tag)); LIB(econf_setIntValue(kf, NULL, "n", 7));
+    LIB(rc = econf_writeFile(kf, t->dir, "blocked.out")); sb_printf(&t->out, "write onto a directory rc=%d\n", (int)rc);
+    LIB(rc = econf_writeFile(kf, t->dir, "p6.out")); sb_printf(&t->out, "write rc=%d\n", (int)rc);
+    snprintf(p, sizeof p, "%s/p6.out", t->dir);
+    size_t n = 0; char *w = mc_read_file(p, &n); if (w) { sb_put_esc(&t->out, w, n); free(w); } sb_putc(&t->out, '\n');
     break; }
   default: {
     snprintf(p, sizeof p, "%s/bad.conf", t->dir);
